@@ -171,21 +171,26 @@ class Generator(AbstractODSGenerator):
         entry: AbstractTransaction
         year: int
         years_2_transaction_sets: Dict[int, List[AbstractTransaction]] = {}
+        previous_year: Optional[int] = None
         previous_year_row_offset: int = 0
 
         # Sort all in and out transactions by year, the fee from intra transactions must be reported
         for entry in chain(in_transaction_set, out_transaction_set, intra_transaction_set):  # type: ignore
             years_2_transaction_sets.setdefault(entry.timestamp.year, []).append(entry)
 
-        for year, transaction_set in years_2_transaction_sets.items():
+        # Years must be processed in ascending order (the three transaction sets are sorted separately, so years are not necessarily
+        # first met in order): each year sheet refers to the closing balance of the most recent earlier year of the same asset
+        for year, transaction_set in sorted(years_2_transaction_sets.items()):
             # Sort the transactions by timestamp and generate sheet by year
             previous_year_row_offset = self.__generate_asset_year(
                 asset=asset,
                 year=year,
                 transaction_list=sorted(transaction_set, key=lambda x: x.timestamp),
                 output_file=output_file,
+                previous_year=previous_year,
                 previous_year_row_offset=previous_year_row_offset,
             )
+            previous_year = year
 
             summary_sheet: Any = output_file.sheets[self.get_summary_sheet_name(year)]
 
@@ -280,7 +285,9 @@ class Generator(AbstractODSGenerator):
             donated_amount_in_yen=donated_amount_in_yen,
         )
 
-    def __generate_asset_year(self, asset: str, year: int, transaction_list: List[AbstractTransaction], output_file: Any, previous_year_row_offset: int) -> int:
+    def __generate_asset_year(
+        self, asset: str, year: int, transaction_list: List[AbstractTransaction], output_file: Any, previous_year: Optional[int], previous_year_row_offset: int
+    ) -> int:
         asset_year_sheet: Any = output_file.sheets[self.ASSET_TEMPLATE_SHEET].copy(newname=self.get_tax_sheet_name(asset, year))
         output_file.sheets += asset_year_sheet
 
@@ -346,8 +353,9 @@ class Generator(AbstractODSGenerator):
         # Last year's totals
         previous_year_crypto_cell: Optional[str] = None
         previous_year_yen_cell: Optional[str] = None
-        if previous_year_row_offset != 0:
-            previous_year_sheet_name: str = self.get_tax_sheet_name(asset, year - 1)
+        if previous_year is not None and previous_year_row_offset != 0:
+            # The previous year sheet of this asset is not necessarily the one of year - 1 (there may be years without transactions)
+            previous_year_sheet_name: str = self.get_tax_sheet_name(asset, previous_year)
             previous_year_crypto_cell = f"='{previous_year_sheet_name}'.I{previous_year_row_offset}"
             previous_year_yen_cell = f"='{previous_year_sheet_name}'.I{previous_year_row_offset+1}"
 
